@@ -442,6 +442,29 @@ func (w *vfWorld) dump(name string) (items []vfKV, count int64, err error) {
 	return
 }
 
+// read fetches key k and its value in a fresh read-only transaction.
+func (w *vfWorld) read(name string, k int) (v string, found bool, err error) {
+	armed := w.armed
+	w.armed = false
+	defer func() { w.armed = armed }()
+	ctx := context.Background()
+	t := w.newTx(sop.ForReading)
+	if err = t.Begin(ctx); err != nil {
+		return
+	}
+	defer t.Rollback(ctx)
+	b3, e := OpenBtree[int, string](ctx, name, t, nil)
+	if e != nil {
+		return "", false, e
+	}
+	found, err = b3.Find(ctx, k, false)
+	if err != nil || !found {
+		return
+	}
+	v, err = b3.GetCurrentValue(ctx)
+	return
+}
+
 // find looks key k up in a fresh read-only transaction.
 func (w *vfWorld) find(name string, k int) bool {
 	armed := w.armed
